@@ -34,6 +34,16 @@ type V = (String, String, serde_json::Value);
 
 /// Decode a byte string delivered in `pieces`; compare with the reference parse of the whole.
 fn decode_pieces(whole: &[u8], cuts: &[usize]) -> Result<(), String> {
+    match std::panic::catch_unwind(|| decode_pieces_inner(whole, cuts)) {
+        Ok(r) => r,
+        Err(p) => {
+            let msg = p.downcast_ref::<String>().cloned().or_else(|| p.downcast_ref::<&str>().map(|s| s.to_string())).unwrap_or_default();
+            Err(format!("decoder panicked: {msg}"))
+        }
+    }
+}
+
+fn decode_pieces_inner(whole: &[u8], cuts: &[usize]) -> Result<(), String> {
     let (want, want_left) = parse_all(whole);
     let mut codec = FrameCodec;
     let mut buf = BytesMut::new();
@@ -98,6 +108,34 @@ pub fn run(tier: Tier) -> i32 {
         let wire = enc(cmdb, id, &data);
         if let Err(e) = decode_pieces(&wire, &[]) {
             viols.push(("C03:decode-mismatch".to_string(), format!("cmd={cmdb} id={id:#x} len={len}: {e}"), json!({"cmd": cmdb, "id": id, "len": len})));
+        }
+        // the same frame delivered in two pieces: header | payload, all but the last byte | last byte;
+        // near every power of two and at both ends of the length range also every cut in the last 8 bytes and the header
+        let total = wire.len();
+        let mut cutset: Vec<usize> = vec![7.min(total - 1), total - 1];
+        let near_boundary = len <= 64 || len >= 65_500 || (3..16).any(|k| (len as i64 - (1i64 << k)).abs() <= 8);
+        if near_boundary {
+            for k in 1..=9usize {
+                if total > k {
+                    cutset.push(total - k);
+                }
+            }
+            for k in 1..7usize {
+                if total > k {
+                    cutset.push(k);
+                }
+            }
+        }
+        cutset.sort_unstable();
+        cutset.dedup();
+        for c in cutset {
+            if c == 0 || c >= total {
+                continue;
+            }
+            if let Err(e) = decode_pieces(&wire, &[c]) {
+                viols.push(("C03:chunking-dependent".to_string(), format!("cmd={cmdb} id={id:#x} len={len} delivered as {c} + {} bytes: {e}", total - c), json!({"cmd": cmdb, "id": id, "len": len, "cut": c})));
+                break;
+            }
         }
         // encode of the corresponding Command variant
         let c = cmd_of(cmdb);
